@@ -29,7 +29,7 @@ CHECKS = {
    text="Laziness (nothing logged before the first poll, nor when dropped unpolled), step-internal concurrency (every active branch reaches its first pending point; an opened branch reaches its next one while siblings are pending), wake-up propagation and completion with the model's value are checked for every generated wake-up order; a hang shows deterministically as 'all gates open, root pending, not notified'. Multi-threaded tokio schedulers are not explored."),
  "C10": dict(level="exploration", engine="R", design="6/C10",
    technique="property-based testing: event multiset and per-branch callback order of generated programs vs the reference model, clone- and drop-counting tokens",
-   text="Every evaluation of a user expression is an event; the multiset of events of a run must equal the model's (exactly once / exactly as often as the method calls it), clone counter 0, no live token after the result is dropped. Grid operators only (iterator callbacks and fold operands are covered by the chain generator once C01 is built)."),
+   text="Every evaluation of a user expression is an event; the multiset of events of a run must equal the model's (exactly once / exactly as often as the method calls it), clone counter 0, no live token after the result is dropped. The same command then runs the library-level half (engine L): generated structures over all 23 operator spellings in which every user expression carries a unique marker; each marker must occur exactly once in the expansion."),
  "C11": dict(level="exploration", engine="R", design="6/C11",
    technique="property-based testing: ordering invariant over the event log of generated programs with block operands on every hoistable grid position",
    text="Capture phase of every executed step must be exactly the model's sequence (branch-then-position), after all earlier-step events and before all other events of its own step, also for captures inside nested wrappers and in thread/task-spawning macros."),
@@ -38,10 +38,19 @@ CHECKS = {
    text="Random subsets of branches are named, captures of later steps snapshot random names (also of finished branches); every snapshot must equal the named branch's latest step result and the macro's value must be what the model (which ignores names) predicts."),
  "C13": dict(level="exploration", engine="R", design="6/C13",
    technique="property-based testing with fault enumeration: handler-call events and results of generated (macro x handler kind x position) programs under enumerated failure plans",
-   text="Legal handler kinds at every position among 1-5 branches under all 12 macro names, failure plans enumerated; handler called exactly once iff documented, with the values in branch order (argument hash), async handler futures run. Rejection of illegal kinds / second handlers is checked separately at library level (engine L) - not yet part of this check."),
+   text="Legal handler kinds at every position among 1-5 branches under all 12 macro names, failure plans enumerated; handler called exactly once iff documented, with the values in branch order (argument hash), async handler futures run. The same command then runs the library-level half (engine L): every (configuration x handler kind x position) is enumerated - wrong kinds must be rejected, legal ones accepted - and every pair of handlers, plus generated structures with an inserted second handler, must be rejected by the parser."),
  "C18": dict(level="fault_enumeration", engine="R", design="6/C18",
    technique="fault injection enumerated over every evaluation event of generated programs: child processes with catch_unwind (sync / threads), deterministic executor with catch_unwind around each poll (async)",
    text="Every single event position of each generated program (initial value, operand, callback, capture, handler expression, handler call) is made to panic in turn; the panic must be observed by the caller, no later-step event may exist, and an async future must not be left pending with nothing outstanding."),
+ "C14": dict(level="exploration", engine="L", design="6/C14",
+   technique="property-based testing (proptest, in process over join_impl): structure round trip - a generated chain structure is rendered to text and the parser must recover exactly it; exhaustive table of adjacent operator pairs",
+   text="All 23 operator spellings with every flag combination are enumerated pairwise (about 4 200 inputs) and 40 000 (quick) / 2 000 000 (thorough) random structures with adversarial operands (operator look-alikes inside groups, macros, literals, closure return types, turbofish, nested generics, if / match) are rendered and parsed back; proptest shrinks a failure to a minimal input. Two genuine defects remain open as known findings (bracket-leading operand after `=>`; `let` before a top-level && / || value), one was fixed (table priority)."),
+ "C15": dict(level="exploration", engine="L", design="6/C15",
+   technique="property-based testing / fuzzing in process (proptest): token soups over the DSL vocabulary, every listed structural fault applied to generated valid programs, token-level edits of valid programs; oracle = outcome class + syntactic validity of the output (syn)",
+   text="Each input is lexed, parsed and expanded under catch_unwind with one of the 8 configurations; the outcome must be a valid expression, a syn error or one of the generator's two configuration messages, and fault inputs must be rejected. 420 000 inputs in the quick tier, a third of which reach the generator."),
+ "C20": dict(level="exploration", engine="L", design="6/C20",
+   technique="model-based property testing over histories (proptest): sequences of expansions over a pool of inputs x configurations, replayed sequentially and concurrently on fresh threads; model = first output per (input, config)",
+   text="A history is a pool of generated inputs, a sequence of (input, configuration) expansions with repetition, and a thread count; every later or concurrent expansion must be byte-identical to the first. Hash-order or thread-local state would show because each history constructs fresh hash states and threads."),
 }
 NOT_YET = "check not built yet in this session; to be decided by generated-input search as described in DESIGN.md"
 def main():
